@@ -6,6 +6,7 @@ tracking modes) is covered by other suites of this property.
 -/
 import Rv.Lemmas.LruFlights
 import Rv.Lemmas.AdapterRefine
+import Rv.Lemmas.CachePipe
 namespace Rv.C06
 open Rv.Lru
 open Rv.Spec.Cache (Spec lookup)
@@ -236,5 +237,155 @@ theorem adapter_clock_stepping_back_serves_stale :
        .delete (some [k])]                          -- invalidation: skipped because the slot is pending
     (Adapter.flight r.1 k c 50000000 10000000).2 = .hit 1 50 ∧        -- a lookup "at 10 ms" hits the old value
     lookup r.2.1 (k, c) (unixMilli 10000000) = none := by decide
+
+
+/-! ### one connection: DoCache, the reader loop, invalidation pushes and the server (`Rv.CachePipe`)
+
+Every theorem below is about `run (init mx base) evs` for an ARBITRARY event list: events that are not enabled are
+no-ops, the queues are FIFO, so this is every interleaving of DoCache calls, server executions, writes by other
+clients, flushes, deliveries to the reader loop and disconnects that respects wire order. Values are the server's
+per-key write counters ("versions"); `floor k` is the largest write version of `k` whose invalidation the reader
+loop has processed; an invalidation message carries (ghost) the version of the write that caused it. -/
+
+open Rv.CachePipe in
+/-- **No stale hit, general form.** Whatever happened on the connection, a DoCache hit for a command on key `k`
+    returns a version that is not older than any invalidation of `k` processed so far (`floor k`), and that the
+    server really had (`≤ ver k`). -/
+theorem hit_not_older_than_processed_invalidation (mx base : Int) (evs : List Ev) (k c : Bytes) (ttl now : Int)
+    (v : Nat) (exp : Int) (h : lookupRes (CachePipe.run (CachePipe.init mx base) evs) k c ttl now = .hit v exp) :
+    (CachePipe.run (CachePipe.init mx base) evs).floor k ≤ v ∧ v ≤ (CachePipe.run (CachePipe.init mx base) evs).ver k := by
+  have hinv := pinv_run (pinv_init mx base) evs
+  obtain ⟨e, he, hk, hc, hp, hv⟩ := flight_hit_entry _ k c ttl now v exp h
+  have := hinv.entries e he hp
+  unfold EOk at this
+  rw [hk, hv] at this
+  exact ⟨this.1, this.2.1⟩
+
+open Rv.CachePipe in
+/-- **No stale hit.** Take any history `evs1` after which the invalidation of `k` caused by write number `n` is the
+    next message the reader loop will handle; let it be handled (`deliver`) and let anything (`evs2`) happen
+    afterwards. Every DoCache hit on `k` from then on returns a version `≥ n`: the reply it came from was executed by
+    the server after that write. In particular a reply of an older fetch that reached the store before the push was
+    deleted by it (`push_deletes_key`), and a reply still queued behind the push is newer
+    (`reply_after_push_is_newer`). -/
+theorem no_stale_hit (mx base : Int) (evs1 evs2 : List Ev) (k : Bytes) (n : Nat) (rest : List Msg)
+    (hq : (CachePipe.run (CachePipe.init mx base) evs1).respQ = .push k n :: rest)
+    (c : Bytes) (ttl now : Int) (v : Nat) (exp : Int)
+    (h : lookupRes (CachePipe.run (CachePipe.init mx base) (evs1 ++ .deliver :: evs2)) k c ttl now = .hit v exp) :
+    n ≤ v := by
+  have hsplit : ∀ (st : St) (a b : List Ev), CachePipe.run st (a ++ b) = CachePipe.run (CachePipe.run st a) b := by
+    intro st a; induction a generalizing st with
+    | nil => intro b; rfl
+    | cons x xs ih => intro b; exact ih _ b
+  have h1 := (hit_not_older_than_processed_invalidation mx base _ k c ttl now v exp h).1
+  rw [hsplit] at h1
+  generalize CachePipe.run (CachePipe.init mx base) evs1 = st1 at hq h1
+  have hfl : n ≤ (CachePipe.step st1 .deliver).floor k := by
+    simp only [CachePipe.step, hq, handle, upd_same]; exact Nat.le_max_right _ _
+  exact Nat.le_trans hfl (Nat.le_trans (floor_mono_run _ evs2 k) h1)
+
+open Rv.CachePipe in
+/-- the same after a flush push (`Delete(nil)`): every later hit is at least as new as the flush, for every key -/
+theorem no_stale_hit_after_flush (mx base : Int) (evs1 evs2 : List Ev) (g : Bytes → Nat) (rest : List Msg)
+    (hq : (CachePipe.run (CachePipe.init mx base) evs1).respQ = .pushAll g :: rest)
+    (k c : Bytes) (ttl now : Int) (v : Nat) (exp : Int)
+    (h : lookupRes (CachePipe.run (CachePipe.init mx base) (evs1 ++ .deliver :: evs2)) k c ttl now = .hit v exp) :
+    g k ≤ v := by
+  have hsplit : ∀ (st : St) (a b : List Ev), CachePipe.run st (a ++ b) = CachePipe.run (CachePipe.run st a) b := by
+    intro st a; induction a generalizing st with
+    | nil => intro b; rfl
+    | cons x xs ih => intro b; exact ih _ b
+  have h1 := (hit_not_older_than_processed_invalidation mx base _ k c ttl now v exp h).1
+  rw [hsplit] at h1
+  generalize CachePipe.run (CachePipe.init mx base) evs1 = st1 at hq h1
+  have hfl : g k ≤ (CachePipe.step st1 .deliver).floor k := by
+    simp only [CachePipe.step, hq, handle]; exact Nat.le_max_right _ _
+  exact Nat.le_trans hfl (Nat.le_trans (floor_mono_run _ evs2 k) h1)
+
+open Rv.CachePipe in
+/-- **Every hit is the reply the server sent for exactly that command**: the returned version was handed to
+    `Update` as the EXEC reply of a fetch of that same (key, cmd) (`log` records exactly the replies delivered). -/
+theorem hit_is_reply_of_same_command (mx base : Int) (evs : List Ev) (k c : Bytes) (ttl now : Int)
+    (v : Nat) (exp : Int) (h : lookupRes (CachePipe.run (CachePipe.init mx base) evs) k c ttl now = .hit v exp) :
+    ((k, c), v) ∈ (CachePipe.run (CachePipe.init mx base) evs).log := by
+  have hinv := pinv_run (pinv_init mx base) evs
+  obtain ⟨e, he, hk, hc, hp, hv⟩ := flight_hit_entry _ k c ttl now v exp h
+  have := (hinv.entries e he hp).2.2.2.2
+  rw [hk, hc, hv] at this; exact this
+
+open Rv.CachePipe in
+/-- **Pending entries survive invalidation**: handling an invalidation push (of any key, or a flush) leaves every
+    in-flight entry in the store; its reply, which is behind the push on the wire, will fill it. -/
+theorem pending_survives_invalidation (mx base : Int) (evs : List Ev) (m : Msg) (rest : List Msg)
+    (hq : (CachePipe.run (CachePipe.init mx base) evs).respQ = m :: rest)
+    (hm : (∃ k n, m = .push k n) ∨ ∃ g, m = .pushAll g)
+    (e : Entry) (he : e ∈ (CachePipe.run (CachePipe.init mx base) evs).store.list) (hp : e.pend = true) :
+    e ∈ (CachePipe.step (CachePipe.run (CachePipe.init mx base) evs) .deliver).store.list := by
+  have hinv := pinv_run (pinv_init mx base) evs
+  generalize CachePipe.run (CachePipe.init mx base) evs = st at hq he hinv
+  rcases hm with ⟨k, n, rfl⟩ | ⟨g, rfl⟩
+  · simp only [CachePipe.step, hq, handle]
+    exact pending_persists hinv.store he hp (.delete (some [k])) rfl
+  · simp only [CachePipe.step, hq, handle]
+    exact pending_persists hinv.store he hp (.delete none) rfl
+
+open Rv.CachePipe in
+/-- a reply that reached the store BEFORE the push of its key is deleted by that push -/
+theorem push_deletes_key (st : St) (k : Bytes) (n : Nat) (rest : List Msg) (hq : st.respQ = .push k n :: rest) :
+    ∀ e ∈ (CachePipe.step st .deliver).store.list, e.key = k → e.pend = true := by
+  intro e he hk
+  simp only [CachePipe.step, hq, handle] at he
+  have := (mem_foldl_purge [k] he).2
+  cases hp : e.pend
+  · exact absurd (by simp [hk]) (this hp)
+  · rfl
+
+open Rv.CachePipe in
+/-- a reply queued BEHIND an invalidation of its key was executed after the invalidating write -/
+theorem reply_after_push_is_newer (mx base : Int) (evs : List Ev) (pre post : List Msg) (m : Msg)
+    (hq : (CachePipe.run (CachePipe.init mx base) evs).respQ = pre ++ m :: post)
+    (k c : Bytes) (v : Nat) (vsz raw : Int) (hr : Msg.reply k c v vsz raw ∈ post) : pushVer m k ≤ v := by
+  have hinv := pinv_run (pinv_init mx base) evs
+  have := hinv.queue
+  rw [hq] at this
+  exact QOk_replies_ge (QOk_suffix pre _ this) k c v vsz raw hr
+
+open Rv.CachePipe in
+/-- **Coherence.** At every moment every completed entry of the store, and every reply still on the wire, is
+    either the server's current version of its key or is followed — in the store's case: somewhere on the wire, in
+    the reply's case: behind it — by an invalidation that covers it. Nothing stale can stay cached without its
+    invalidation already being on the way. -/
+theorem cached_value_current_or_invalidation_in_flight (mx base : Int) (evs : List Ev) :
+    let st := CachePipe.run (CachePipe.init mx base) evs
+    (∀ e ∈ st.store.list, e.pend = false →
+        e.val = st.ver e.key ∨ ∃ m ∈ st.respQ, e.val < pushVer m e.key) ∧
+    (∀ pre post k c v vsz raw, st.respQ = pre ++ .reply k c v vsz raw :: post →
+        v = st.ver k ∨ ∃ m ∈ post, v < pushVer m k) := by
+  intro st
+  have hinv := pinv_run (pinv_init mx base) evs
+  constructor
+  · intro e he hp
+    obtain ⟨_, b, c', _, _⟩ := hinv.entries e he hp
+    rcases Nat.lt_or_ge e.val (st.ver e.key) with hlt | hge
+    · exact Or.inr (c' hlt)
+    · exact Or.inl (Nat.le_antisymm b hge)
+  · intro pre post k c v vsz raw hq
+    have := hinv.queue
+    rw [show (CachePipe.run (CachePipe.init mx base) evs).respQ = pre ++ .reply k c v vsz raw :: post from hq] at this
+    obtain ⟨_, b, c', _⟩ := (QOk_suffix pre _ this).1.1 k c v vsz raw rfl
+    rcases Nat.lt_or_ge v (st.ver k) with hlt | hge
+    · exact Or.inr (c' hlt)
+    · exact Or.inl (Nat.le_antisymm b hge)
+
+open Rv.CachePipe in
+/-- non-vacuity: a fetch, a write by another client, then the reply and the push arrive in wire order — the value
+    is served between the two deliveries and no longer afterwards -/
+theorem pipe_scenario :
+    let k : Bytes := [107]; let c : Bytes := [71]
+    let evs : List Ev := [.start k c 1000000000000 0, .exec 50 0, .write k, .deliver]
+    let st := CachePipe.run (CachePipe.init 10000 336) evs
+    lookupRes st k c 1000000000000 1000000 = .hit 0 1000000 ∧
+    st.ver k = 1 ∧
+    lookupRes (CachePipe.step st .deliver) k c 1000000000000 1000000 = .send := by decide
 
 end Rv.C06
